@@ -10,7 +10,7 @@ from vf.gen import pitgen
 
 UNSUPPORTED_MARKERS = (
     'Unsupported node', 'not supported', 'PIT currently supports only',
-    'multiple users', 'track_running_stats',
+    'multiple users', 'track_running_stats', 'invoked without the second one',
 )
 
 
